@@ -19,8 +19,10 @@ import (
 	meshconfig "istio.io/api/mesh/v1alpha1"
 	networking "istio.io/api/networking/v1alpha3"
 	security "istio.io/api/security/v1beta1"
+	telemetry "istio.io/api/telemetry/v1alpha1"
 	typev1beta1 "istio.io/api/type/v1beta1"
 	"istio.io/istio/pilot/pkg/model"
+	cluster2 "istio.io/istio/pkg/cluster"
 	"istio.io/istio/pkg/config/schema/gvk"
 	"istio.io/istio/pkg/ptr"
 	"verifharness/internal/wire"
@@ -259,6 +261,10 @@ func init() {
 // witnessMeshConfigs: mesh-wide settings of the witness meshes that need other than the defaults.
 var witnessMeshConfigs = map[string]func(m *meshconfig.MeshConfig){
 	"http-proxy-several-ports": func(m *meshconfig.MeshConfig) { m.ProxyHttpPort = 15002 },
+	"two-metrics-providers": func(m *meshconfig.MeshConfig) {
+		m.ExtensionProviders = append(m.ExtensionProviders, &meshconfig.MeshConfig_ExtensionProvider{Name: "prom-b",
+			Provider: &meshconfig.MeshConfig_ExtensionProvider_Prometheus{Prometheus: &meshconfig.MeshConfig_ExtensionProvider_PrometheusMetricsProvider{}}})
+	},
 }
 
 func init() {
@@ -341,13 +347,42 @@ func init() {
 		g.node0()
 		ports := []corev1.ServicePort{{Name: "http", Port: 80, TargetPort: intstr.FromInt32(8080), Protocol: corev1.ProtocolTCP}}
 		g.k8sService("b", "default", corev1.ClusterIPNone, ports, 3, 1, "")
-		sh := &shardSpec{host: "b.default.svc.cluster.local", ns: "default"}
-		for p := 0; p < 3; p++ {
-			sh.eps = append(sh.eps, &model.IstioEndpoint{Addresses: []string{fmt.Sprintf("10.30.0.%d", p+1)}, EndpointPort: 8080, ServicePortName: "http",
-				Labels: map[string]string{"app": "b", "version": "v1"}, ServiceAccount: "spiffe://cluster.local/ns/default/sa/default", Namespace: "default",
-				WorkloadName: fmt.Sprintf("b-c2-%d", p), HostName: fmt.Sprintf("b-c2-%d", p), SubDomain: "b", Locality: model.Locality{Label: "r2/z2", ClusterID: "c2"}, TLSMode: "istio"})
+		// four remote clusters: five shard keys, so that a map-ordered walk flaps with high probability
+		for c := 2; c <= 5; c++ {
+			sh := &shardSpec{cluster: "c" + strconv.Itoa(c), host: "b.default.svc.cluster.local", ns: "default"}
+			for p := 0; p < 2; p++ {
+				sh.eps = append(sh.eps, &model.IstioEndpoint{Addresses: []string{fmt.Sprintf("10.3%d.0.%d", c, p+1)}, EndpointPort: 8080, ServicePortName: "http",
+					HealthStatus: model.Healthy, Labels: map[string]string{"app": "b", "version": "v1"}, ServiceAccount: "spiffe://cluster.local/ns/default/sa/default",
+					Namespace: "default", WorkloadName: fmt.Sprintf("b-c%d-%d", c, p), HostName: fmt.Sprintf("b-c%d-%d", c, p), SubDomain: "b",
+					Locality: model.Locality{Label: "r2/z2", ClusterID: cluster2.ID("c" + strconv.Itoa(c))}, TLSMode: "istio"})
+			}
+			g.objs = append(g.objs, obj{shard: sh, desc: "Shard/" + sh.cluster + "/default/b", feat: "remote-cluster-shard"})
 		}
-		g.objs = append(g.objs, obj{shard: sh, desc: "Shard/c2/default/b", feat: "remote-cluster-shard"})
+	}
+}
+
+func init() {
+	// Review round 3 (MU2): two metrics providers with different overrides give two stats filters; telemetry.go walks the
+	// providers of a proxy in sorted order (a map underneath) - the order of the two filters must not change.
+	witnessMeshes["two-metrics-providers"] = func(g *mgen) {
+		g.addCfg("serviceentry", g.meta(gvk.ServiceEntry, "se", "default"), &networking.ServiceEntry{
+			Hosts: []string{"ext1.example.com"}, Ports: []*networking.ServicePort{httpPort(), {Number: 9000, Name: "tcp", Protocol: "TCP"}}, Resolution: networking.ServiceEntry_DNS})
+		// Which providers are in scope is decided by the LAST Metrics entry on the way root namespace -> namespace -> workload
+		// (it overrides, it does not merge): the root Telemetry configures prometheus alone, the namespace Telemetry names
+		// both providers - so both are in scope and prometheus carries one override more than prom-b: two different filters.
+		mk := func(metric telemetry.MetricSelector_IstioMetric, tag string, providers ...string) *telemetry.Metrics {
+			m := &telemetry.Metrics{Overrides: []*telemetry.MetricsOverrides{{
+				Match:        &telemetry.MetricSelector{MetricMatch: &telemetry.MetricSelector_Metric{Metric: metric}},
+				TagOverrides: map[string]*telemetry.MetricsOverrides_TagOverride{tag: {Value: "request.host"}}}}}
+			for _, p := range providers {
+				m.Providers = append(m.Providers, &telemetry.ProviderRef{Name: p})
+			}
+			return m
+		}
+		g.addCfg("telemetry", g.meta(gvk.Telemetry, "tl-root", rootNS), &telemetry.Telemetry{Metrics: []*telemetry.Metrics{mk(telemetry.MetricSelector_REQUEST_COUNT, "tag_a", "prometheus")}})
+		for _, ns := range []string{"default", "ns1"} {
+			g.addCfg("telemetry", g.meta(gvk.Telemetry, "tl", ns), &telemetry.Telemetry{Metrics: []*telemetry.Metrics{mk(telemetry.MetricSelector_REQUEST_DURATION, "tag_b", "prom-b", "prometheus")}})
+		}
 	}
 }
 
